@@ -12,7 +12,7 @@ if grep -q "pie_graph" "$demo" 2>/dev/null && ! grep -q "use pie::" "$demo"; the
 mkdir -p $testdir
 feat=""
 if [ "$crate" = pie ] && grep -q "HashChecker\|hash_checker" "$demo" 2>/dev/null; then feat="--features file_hash_checker"; fi
-run_demo() { cp "$demo" $testdir/seed_demo.rs; cargo test --offline -p $crate $feat --test seed_demo 2>&1 | grep -E "^test result|error(\[|:)" | head -3; rm -f $testdir/seed_demo.rs; }
+run_demo() { cp "$demo" $testdir/seed_demo.rs; cargo test --offline -p $crate $feat --test seed_demo 2>&1 | grep -E "^test result|error(\[|:)" | grep -v "^ *[0-9]*:" | head -3; rm -f $testdir/seed_demo.rs; }
 echo "== without patch: demo"; r0=$(run_demo); echo "$r0"
 git apply "$sd/patch.diff" || { echo "PATCH DOES NOT APPLY"; exit 2; }
 echo "== with patch: baseline"; b=$(cargo test --workspace --no-fail-fast --offline 2>&1 | grep -E "^test result" | awk '{p+=$4; f+=$6} END {print p" passed "f" failed"}'); echo "$b"
